@@ -30,6 +30,10 @@ type simplifier struct {
 	// dblQuoted holds the words found within double quotes, like the
 	// default value in "${a:-"b"}", where single quotes are not special.
 	dblQuoted map[*Word]bool
+
+	// inIndex holds the arithmetic expressions found within array indices,
+	// where parameters must not be inlined; see the *Assign case below.
+	inIndex map[ArithmExpr]bool
 }
 
 func (s *simplifier) visit(node Node) {
@@ -39,9 +43,13 @@ func (s *simplifier) visit(node Node) {
 		// Don't inline params, as x[i] and x[$i] mean
 		// different things when x is an associative
 		// array; the first means "i", the second "$i".
+		s.markIndex(node.Index)
+	case *ArrayElem:
+		s.markIndex(node.Index) // same as above.
 	case *ParamExp:
 		node.Index = s.removeParensArithm(node.Index)
 		// don't inline params - same as above.
+		s.markIndex(node.Index)
 
 		if node.Slice == nil {
 			break
@@ -58,10 +66,14 @@ func (s *simplifier) visit(node Node) {
 		node.X = s.inlineSimpleParams(node.X)
 	case *ParenArithm:
 		node.X = s.removeParensArithm(node.X)
-		node.X = s.inlineSimpleParams(node.X)
+		if !s.inIndex[node] {
+			node.X = s.inlineSimpleParams(node.X)
+		}
 	case *BinaryArithm:
-		node.X = s.inlineSimpleParams(node.X)
-		node.Y = s.inlineSimpleParams(node.Y)
+		if !s.inIndex[node] {
+			node.X = s.inlineSimpleParams(node.X)
+			node.Y = s.inlineSimpleParams(node.Y)
+		}
 	case *CmdSubst:
 		node.Stmts = s.inlineSubshell(node.Stmts)
 	case *Subshell:
@@ -157,6 +169,26 @@ parts:
 		}
 	}
 	return wps
+}
+
+// markIndex records the expressions which make up an array index,
+// so that the parameters they hold are left alone, like those directly in the index.
+func (s *simplifier) markIndex(x ArithmExpr) {
+	if x == nil {
+		return
+	}
+	Walk(x, func(n Node) bool {
+		switch n := n.(type) {
+		case *Word:
+			return false // e.g. $((x)) in an index is an arithmetic expansion of its own
+		case ArithmExpr:
+			if s.inIndex == nil {
+				s.inIndex = make(map[ArithmExpr]bool)
+			}
+			s.inIndex[n] = true
+		}
+		return true
+	})
 }
 
 func (s *simplifier) removeParensArithm(x ArithmExpr) ArithmExpr {
